@@ -203,10 +203,18 @@ def c19_py_computed(prop="C19", tier="quick", seed=0, **kw):
             if quick and rec in ("RecI32", "RecI64") and ("mul" in f or f == "prod"):
                 continue      # deciding whether a 32 x 32-bit product overflows costs 5-15 s per query: thorough tier (RecU8 and the Np* records keep the products)
             jobs.append(njob("h_c19_int_np", "c19np:%s.%s" % (rec, f), rec=rec, field=f))
+    # fields of ELEMENTS of arrays of records: numpy structured arrays, whose elements are numpy.void values
+    # (harness/py/c19recarr.py, model models/c19computed/recelems.yml, numpy model npmodel.RecVal)
+    from harness.py import c19recarr as CR
+    rfields = list(CR.FIELDS) if gtypes is not None else []       # (a fraction of a second per field: all of them in both tiers)
+    for f in rfields:
+        j = _job("h_c19_recelem", "c19rec:%s.%s" % (CR.OUTER, f), b, field=f)
+        j["harness"] = "harness.py.c19recarr:h_c19_recelem"
+        jobs.append(j)
     for j in jobs:
         if "xcheck_every" in j["limits"]:
             j["limits"]["xcheck_every"] = 2     # few queries per job here: cross-check every second one
-    expected = ["computed.no-exception-for-in-range-operands", "computed.int-division==truncated-quotient", "computed.int-expression==mathematical-value",
+    expected = ["computed.record-array-element-field==mathematical-value", "computed.no-exception-for-in-range-operands", "computed.int-division==truncated-quotient", "computed.int-expression==mathematical-value",
                 "computed.float-expression==ieee-value", "computed.size==length", "computed.nested-expression==value-of-the-expression-tree",
                 "computed.numpy-operands==mathematical-value"]
     bounds = {"records": recs, "integer_operands": "symbolic over the full range of the field type (int64 products: |a|,|b| <= 2^38)",
@@ -219,14 +227,36 @@ def c19_py_computed(prop="C19", tier="quick", seed=0, **kw):
               "numpy operands": "records %s: computed fields over elements of T[] / T[3] / T[r:2, c:2] array fields (numpy scalars of the element type; 2-d array in C / Fortran / transposed layout), vector elements, "
                                 "and int64 / uint64 / int32 / T scalar fields holding Python ints or numpy scalars; operands symbolic over their whole type (operands of a product: |v| <= 2^38); "
                                 "element division restricted to non-negative dividend / positive divisor; array element x float64 from pools; "
-                                "records %s also with numpy scalars in the fields a, b" % (nrecs, recs)}
+                                "records %s also with numpy scalars in the fields a, b" % (nrecs, recs),
+              "fields of record-array elements": "record RaOuter, computed fields %s: member access (also through a nested record field) on elements of Rec[] / Rec[2] / Rec[,] / Rec[x, y] / "
+                                                 "Rec[r:2, c:2] / alias of Rec[] / (alias of Rec)[] given as numpy structured arrays of get_dtype(Rec) with 2 / 2 x 2 elements (2-d: C / Fortran / "
+                                                 "transposed layout), and on elements of Rec* (lists of generated-class instances); int32 / uint8 / int16 fields symbolic over their whole type, "
+                                                 "the float64 field read by an expression from the pool %s; no record field named like an attribute of numpy.void" % (rfields, CR.FPOOL)}
     part = _run("c19_py_computed", prop, jobs, bounds, expected, ["c19computed"],
                 extra_assume=["C19 oracle: mathematical value of the model expression; integer division truncates toward zero (C++ semantics); float operators are IEEE double operations",
                               "C19 numpy operands: numpy integer scalars are modelled (engine/pysym/npmodel.py NpInt: result dtype by np.result_type, + - * wrap modulo 2^bits, Python-int operands are "
                               "converted to the numpy operand's dtype or raise OverflowError, // floors with x // 0 == 0); the model is compared with real numpy on concrete values (lemma below) and "
-                              "by the native replay of every path"])
+                              "by the native replay of every path",
+                              "C19 record arrays: an array of records reaches the generated Python as a numpy array with the structured dtype get_dtype(Rec) of the generated types.py (what the "
+                              "generated readers produce); its elements are modelled by npmodel.RecVal = numpy.void (fields by [\"name\"] only, no field attributes; structured fields nest); "
+                              "the model is compared with real numpy on concrete values (lemma) and by the observations of every path's native replay"])
     _np_lemma(part, 4 if quick else 1)
+    _void_lemma(part)
     return part
+
+
+def _void_lemma(part):
+    """npmodel.RecVal (elements of structured arrays) against numpy.void on concrete values (no code under test involved)"""
+    from harness.py import c19recarr as CR
+    t0 = time.time()
+    n, bad = CR.void_model_lemma()
+    part["obligations"].append({"id": "numpy.lemma void-model==numpy", "paths": 1, "queries": 0, "unsat": 0, "sat": 0, "unknown": 0, "concrete_cases": n,
+                                "status": "holds" if not bad else "inconclusive",
+                                "note": "element of a 1-d / 2-d structured array (flat and nested dtype): [\"field\"], [\"unknown\"], [0], len, getattr / hasattr of field names give what numpy %s gives "
+                                        "(values, dtypes, exception classes)" % __import__("numpy").__version__})
+    for m in bad[:5]:
+        part["inconclusive"].append("numpy.void model differs from numpy: " + m)
+    part["wall_s"] = round(part["wall_s"] + time.time() - t0, 2)
 
 
 def _np_lemma(part, stride):
